@@ -34,12 +34,22 @@ def run(ctx, replay=None):
         return 1 if new else 0
     out, st = ctx.model_check("RobustGen", "RobustGen" if q else "RobustGen_thorough", env={"OUT": gen}, workers=1, timeout=3000)
     counts = [int(x) for x in out.split('<<"COUNTS", ')[1].split(">>")[0].split(", ")]
+    # the documents the wire specifications (CalWire / CardWire, C08 / C09) classify as outside the RFC: 4xx, no backend call
+    inv = []
+    for proto, genmod in (("cal", "CalWireGen"), ("card", "CardWireGen")):
+        d = os.path.join(gen, "wire-" + proto)
+        os.makedirs(d, exist_ok=True)
+        ctx.model_check(genmod, genmod, env={"OUT": d}, workers=1, timeout=3000)
+        for row in vlib.read_ndjson(os.path.join(d, "invalid.ndjson")):
+            inv.append({"srv": proto, "m": "REPORT", "level": 3, "doc": row["doc"], "want": "4xx", "what": row["kind"]})
+    vlib.write_ndjson(os.path.join(gen, "invalid-docs.ndjson"), inv)
+    modes.insert(2, ("mutants", "invalid-docs.ndjson"))
     nfuzz = 20000 if q else 2000000
     files = []
     total = 0
     universes = []
     for mode, inf in modes:
-        of = ctx.path("obs", mode + ".ndjson")
+        of = ctx.path("obs", mode + "-" + (inf or "x") + ".ndjson")
         args = ["-mode", mode, "-out", of, "-seed", ctx.seed, "-scratch", ctx.scratch, "-n", nfuzz]
         if inf:
             args += ["-in", os.path.join(gen, inf)]
